@@ -9,6 +9,7 @@ CONSTANTS
   Ops = {"create", "link", "attr", "data"}
   Faults = {"WrongKind", "ForeignBlock"}
   Script <- Script_Links
+  CopyKeep = {}
 VIEW View
 INVARIANT TypeOK
 INVARIANT NameUnique
